@@ -18,6 +18,7 @@
 (* and "#"-lines that are not plain comments after and before it.          *)
 (*                                                                         *)
 (* cfg constants:  MaxLines, Shapes <- ShapesFull | ShapesCore,            *)
+(*                 (ShapesLen: rule lines of 4095 .. 65536 bytes),         *)
 (*                 Policies <- UniformPolicies | ModePolicies (negative),  *)
 (*                 Endings <- EndingsAll | EndingsLFCR                     *)
 (***************************************************************************)
@@ -48,6 +49,12 @@ ShapesFull == ShapesCore \cup {
     <<"R1", "VT", "R2">>,     \* ... inside they are control bytes
     <<"RL">>,                 \* long line (1..60 KiB)
     <<"R2", "SP", "HASH">>    \* "rule # trailing text" is a rule
+}
+
+\* Line length as a dimension: long rule lines between short ones.
+ShapesLen == {
+    <<"R1">>, <<"SP", "R2", "SP">>, <<"HASH">>, <<>>,
+    <<"L4095">>, <<"L4096">>, <<"L4097">>, <<"L5K">>, <<"L40K">>, <<"L65535">>, <<"L65536">>
 }
 
 EndingsAll  == {<<"LF">>, <<"CR", "LF">>, <<"CR">>}
